@@ -328,11 +328,6 @@ func (e *c01Env) concRound(r *kit.Rand, round int) {
 			p.drop()
 		}
 	}
-	for d := range doomed {
-		if !deletedNow[d] {
-			continue
-		}
-	}
 	post := m.compute()
 	for _, d := range detaches {
 		if m.limited(post, d.x) {
@@ -344,12 +339,22 @@ func (e *c01Env) concRound(r *kit.Rand, round int) {
 	}
 	sort.Strings(qkinds)
 	c.Count("rounds", 1)
-	c.Count("interleaving_signatures_recorded", 1)
-	_ = ilv
+	c01IlvMu.Lock()
+	if !c01IlvSeen[ilv] {
+		c01IlvSeen[ilv] = true
+		c.Count("distinct_interleaving_signatures", 1)
+	}
+	c01IlvMu.Unlock()
 	e.check(ctx)
 	held, asg := e.counts()
 	c.Seen(m.shape(), nworkers, held, asg, qkinds)
 }
+
+// evidence only: order in which the goroutines passed their yield points, hashed per round
+var (
+	c01IlvMu   sync.Mutex
+	c01IlvSeen = map[string]bool{}
+)
 
 func c01Keys(m map[string]bool) []string {
 	out := make([]string, 0, len(m))
